@@ -64,7 +64,9 @@ thread_local! {
     static SCAN_MODE: std::cell::Cell<u32> = const { std::cell::Cell::new(0) };
 }
 
-const TEXT_ALPHABET: &[u8] = b"  \t\t\r\n\n0123456789012345678999--px c\xca\xcf:/";
+// blanks, line ends, digits and signs dominate; the rest are the neighbours (+-1, high bit set) of every byte a scanner
+// treats specially, which is where word-at-a-time tricks go wrong
+const TEXT_ALPHABET: &[u8] = b"  \t\t\r\n\n0123456789012345678999--px c\xca\xcf:/    \t\t\r\n\n0123456789--+!\x08\x0b\x0c\x0e\x1f\xa0\x89\x8a\x8d\xb0\xb9,.;\x00\x7f";
 
 /// most-significant-first hex digits of a magnitude, extracted by shifting only
 fn hex_digits(mag: u128) -> Vec<u8> {
@@ -195,6 +197,8 @@ pub fn one_history(id: u64, seed: u64, max_ops: usize, max_len: usize, panics: b
                 let n = [1usize, 2, 3, 5, 7, 8, 9, 10, 15, 16, 17, 20, 39, 40][rng.gen_range(0..14)];
                 if rng.gen_bool(0.3) {
                     v.push(b'-');
+                } else if rng.gen_range(0..12) == 0 {
+                    v.push(b'+');
                 }
                 let lead = if rng.gen_bool(0.2) { b'0' } else { b'1' + rng.gen_range(0..9) };
                 v.push(lead);
